@@ -135,6 +135,14 @@ fn explore(ctx: &Ctx) -> Outcome {
         }
         layers.push(json!({"family": "many files", "files": n, "completed": true}));
     }
+    // state carried between calls: failing parses right before the case
+    for c in cases.iter().step_by(97) {
+        props::poison::failing_calls();
+        total.cases += 1;
+        if let Some((sig, summary)) = judge_files(&files_of(c), &mut total, true) {
+            total.violate(format!("after-failed-calls:{}", sig), summary, json!({"case": c, "after_failed_calls": true}));
+        }
+    }
     // scale: bodies and names beyond 8- and 16-bit sizes
     for (tag, files) in scale_sets() {
         total.cases += 1;
@@ -164,6 +172,10 @@ fn replay(_ctx: &Ctx, case: &Value) -> Vec<Violation> {
         judge_files(&files, &mut t, false)
     } else {
         let c: Vec<(usize, usize)> = serde_json::from_value(case["case"].clone()).unwrap_or_default();
+        if case["after_failed_calls"].as_bool().unwrap_or(false) {
+            props::poison::failing_calls();
+            return judge_files(&files_of(&c), &mut t, true).map(|(sig, summary)| vec![Violation { sig: format!("after-failed-calls:{}", sig), summary, case: case.clone() }]).unwrap_or_default();
+        }
         judge_files(&files_of(&c), &mut t, true)
     };
     match r {
